@@ -471,7 +471,7 @@ theorem C16_unknown_up_requests_refresh (env : Env) (v : View) (a : Nat) (x : Op
 
 /-- the number of refresh requests of a batch, exactly: one for any number of topology events (unless
 disabled) plus one per address whose LAST status is UP and which the ring does not know -/
-theorem handleBatch_refreshReq (env : Env) (v : View) (b : List Ev) (ha : Agree env v) (hc : v.crashed = false) :
+theorem C16_batch_refresh_requests (env : Env) (v : View) (b : List Ev) (ha : Agree env v) (hc : v.crashed = false) :
     (v.handleBatch env b).refreshReq =
       v.refreshReq + (if (hasTopology b && !env.noTopo) = true then 1 else 0) +
         (if env.noStatus = true then 0 else ((coalesce b).filter (unknownUp v.ring)).length) := by
@@ -735,5 +735,122 @@ theorem C16_cex_null_host_id_accepted :
     let row : Row := ⟨0, 5, 5, 0, 1, 1, 2⟩
     row.validPeerSpec = false ∧ row.validPeer = true ∧
     getHosts ⟨1, 0, 2, 2, 1, 1, 2⟩ [row] 10 = some [⟨10, 1, 2, 2⟩, ⟨11, 0, 5, 5⟩] := by decide
+
+/-! ### the oracles evaluated by the harness on the real snapshots: the model's answer is "ok" -/
+
+theorem subsetB_iff (l1 l2 : List Nat) : subsetB l1 l2 = true ↔ ∀ x ∈ l1, x ∈ l2 := by
+  simp [subsetB, List.all_eq_true]
+
+/-- `C16_follows_oracle_ok`: after a refresh of a reachable view with a report whose accepted hosts have distinct ids,
+the oracle "the view follows the report" (op `evfollows`) finds no violated clause -/
+theorem C16_follows_oracle_ok (env : Env) (v : View) (ha : Agree env v) (reported : List RHost)
+    (hn : ((reported.filter (fun h => !env.filter h)).map (·.id)).Nodup) :
+    (v.refresh env reported).1.followsViolations env v.ring.ids reported = [] := by
+  obtain ⟨_, hids, _, hpools, hpol, hnew, hst⟩ := C16_view_follows_report env v ha reported hn
+  have hacc : ∀ id, id ∈ (reported.filter (fun h => !env.filter h)).map (·.id) ↔ ∃ h ∈ reported, env.filter h = false ∧ h.id = id := by
+    intro id
+    simp only [List.mem_map, List.mem_filter]
+    constructor
+    · rintro ⟨h, ⟨hm, hf⟩, rfl⟩; exact ⟨h, hm, by simpa using hf, rfl⟩
+    · rintro ⟨h, hm, hf, rfl⟩; exact ⟨h, ⟨hm, by simp [hf]⟩, rfl⟩
+  unfold View.followsViolations
+  dsimp only
+  have c1 : subsetB (v.refresh env reported).1.ring.ids ((reported.filter (fun h => !env.filter h)).map (·.id)) = true := by
+    rw [subsetB_iff]; intro x hx; exact (hacc x).mpr ((hids x).mp hx)
+  have c2 : subsetB ((reported.filter (fun h => !env.filter h)).map (·.id)) (v.refresh env reported).1.ring.ids = true := by
+    rw [subsetB_iff]; intro x hx; exact (hids x).mpr ((hacc x).mp hx)
+  have c3 : subsetB ((v.refresh env reported).1.pools.map (·.1)) ((reported.filter (fun h => !env.filter h)).map (·.id)) = true := by
+    rw [subsetB_iff]; intro x hx
+    obtain ⟨e, he, rfl⟩ := List.mem_map.mp hx
+    exact (hacc e.1).mpr (hpools e he)
+  have c4 : subsetB ((v.refresh env reported).1.pol.all.map (·.id)) ((reported.filter (fun h => !env.filter h)).map (·.id)) = true := by
+    rw [subsetB_iff]; intro x hx
+    obtain ⟨e, he, rfl⟩ := List.mem_map.mp hx
+    exact (hacc e.id).mpr (hpol e he)
+  have c5 : ((v.refresh env reported).1.ring.ids.filter (fun id => !v.ring.ids.contains id)).all
+      (fun id => hasKey (v.refresh env reported).1.pools id) = true := by
+    rw [List.all_eq_true]
+    intro id hid
+    have := List.mem_filter.mp hid
+    exact hnew id this.1 (by simpa using this.2)
+  have c6 : (reported.filter (fun h => !env.filter h)).all (v.refresh env reported).1.storedMatches = true := by
+    rw [List.all_eq_true]
+    intro h hh
+    have := List.mem_filter.mp hh
+    obtain ⟨s, hs, h1, h2⟩ := hst h this.1 (by simpa using this.2)
+    unfold View.storedMatches
+    rw [hs]; simp [h1, h2]
+  rw [c1, c2, c3, c4, c5, c6]
+  rfl
+
+/-- `C16_inpolicy_oracle_ok`: oracle "every node new in the ring is in the policy" (op `evinpolicy`), under the
+hypothesis of `C16_new_host_in_policy_partial` for every object stored under a new id -/
+theorem C16_inpolicy_oracle_ok (env : Env) (v : View) (ha : Agree env v) (reported : List RHost)
+    (hfresh : ∀ e ∈ (v.refresh env reported).1.ring.byId, e.1 ∉ v.ring.ids → FreshConn env v.ring reported e.2) :
+    (v.refresh env reported).1.newNotInPolicy v.ring.ids = [] := by
+  have hag := agree_refresh env v ha reported
+  unfold View.newNotInPolicy
+  rw [List.map_eq_nil_iff, List.filter_eq_nil_iff]
+  intro e he
+  by_cases hnew : e.1 ∈ v.ring.ids
+  · simp [hnew]
+  · have hid : e.2.id = e.1 := hag.sinv.wf e he
+    have hl : (v.refresh env reported).1.ring.getHost e.2.id = some e.2 := by
+      rw [hid]; exact lookup_of_mem_nodup _ hag.sinv.knodup e he
+    have := C16_new_host_in_policy_partial env v ha reported e.2 hl (by rw [hid]; exact hnew) (hfresh e he hnew)
+    rcases this with h1 | h1 <;> simp [h1]
+
+/-- on rows that all carry a host id and a usable address the code's reported list is the property's reported list -/
+theorem peersHosts_spec (rows : List Row) (hid : ∀ r ∈ rows, r.id ≠ 0) : ∀ (obj : Nat) (l : List RHost),
+    peersHosts rows obj = some l → peersHostsSpec rows obj = l := by
+  induction rows with
+  | nil => intro obj l h; simp only [peersHosts, Option.some.injEq] at h; simp [peersHostsSpec, h]
+  | cons r t ih =>
+    intro obj l h
+    simp only [peersHosts] at h
+    simp only [peersHostsSpec]
+    cases hr : r.host obj 0 with
+    | none => rw [hr] at h; simp at h
+    | some x =>
+      rw [hr] at h
+      cases ht : peersHosts t (obj + 1) with
+      | none => rw [ht] at h; simp at h
+      | some l' =>
+        rw [ht] at h
+        simp only [Option.some.injEq] at h
+        have := ih (fun r' hr' => hid r' (List.mem_cons_of_mem _ hr')) (obj + 1) l' ht
+        rw [this, ← C16_valid_peers_partial r (hid r List.mem_cons_self)]
+        exact h
+
+theorem C16_reported_is_spec (loc : Row) (peers : List Row) (obj0 : Nat) (l : List RHost)
+    (hid : ∀ r ∈ peers, r.id ≠ 0) (h : getHosts loc peers obj0 = some l) : getHostsSpec loc peers obj0 = l := by
+  unfold getHosts at h
+  unfold getHostsSpec
+  cases hl : loc.host obj0 0 with
+  | none => rw [hl] at h; simp at h
+  | some x =>
+    rw [hl] at h
+    cases hp : peersHosts peers (obj0 + 1) with
+    | none => rw [hp] at h; simp at h
+    | some l' =>
+      rw [hp] at h
+      simp only [Option.some.injEq] at h
+      dsimp only
+      rw [peersHosts_spec peers hid (obj0 + 1) l' hp]
+      exact h
+
+/-- `C16_not_offered_oracle_ok`: objects that are down are not offered (op `evnotoffered`; that the tracked
+objects — reported DOWN, not connected since — ARE down is `C16_down_not_offered`) -/
+theorem C16_not_offered_oracle_ok (v : View) (tracked : List Nat) (ht : ∀ o ∈ tracked, o ∈ v.down) :
+    v.offeredObjs tracked = [] := by
+  unfold View.offeredObjs
+  rw [List.filter_eq_nil_iff]
+  intro o ho
+  have := ht o ho
+  simp [this]
+
+/-- every view reachable from a new session by events, refreshes, connects and removals satisfies `Agree` -/
+theorem C16_view_invariant (env : Env) (ops : List VOp) : Agree env (runV env View.empty ops) :=
+  agree_runV env ops _ (agree_empty env)
 
 end C16
